@@ -38,6 +38,29 @@ def exact_semantics_applies(program: list[dict], values: list) -> bool:
     return True
 
 
+def gen_shared_target(rng: random.Random) -> dict:
+    """One node that is a target of TWO gates which become runnable in different steps (one reads a run-time input, the other a value
+    produced one or two steps later), with every combination of default_open."""
+    L = rng.randint(1, 2)
+    nodes: list[dict] = []
+    prev = "x"
+    for j in range(L):
+        nodes.append({"name": f"c{j}", "kind": "fn", "params": [[prev, None]], "dataOuts": [f"m{j}"], "body": {"b": "sum", "k": 0}})
+        prev = f"m{j}"
+    def gate(name: str, src: str, targets: list[str]) -> dict:
+        if rng.random() < 0.5:
+            return {"name": name, "kind": "ifelse", "params": [[src, None]], "targets": targets, "body": {"b": "lt", "k": rng.randint(0, 3)}, "defaultOpen": rng.random() < 0.6}
+        return {"name": name, "kind": "route", "params": [[src, None]], "targets": targets, "multiTarget": False, "fallback": None, "defaultOpen": rng.random() < 0.6,
+                "body": {"b": "table", "rows": [[v, rng.choice(targets + [None])] for v in range(0, 3)], "dflt": rng.choice(targets + [None])}}
+    early_src, late_src = ("i", prev) if rng.random() < 0.5 else (prev, "i")
+    nodes.append(gate("ga", early_src, ["shared", "oa"]))
+    nodes.append(gate("gb", late_src, ["shared", "ob"]))
+    for t in ("shared", "oa", "ob"):
+        nodes.append({"name": t, "kind": "fn", "params": [["x", None]], "dataOuts": [f"v_{t}"], "body": {"b": "tag", "t": t}})
+    rng.shuffle(nodes)
+    return {"program": [{"name": "g0", "nodes": nodes, "bound": []}], "values": [["x", rng.randint(0, 3)], ["i", rng.randint(0, 3)]], "cfg": {}}
+
+
 class C03(RunProp):
     id = "C03"
     level = "proof"
@@ -52,7 +75,10 @@ class C03(RunProp):
     def cases(self, rng: random.Random, tier: str) -> Iterable[dict]:
         while True:
             r = rng.random()
-            if r < 0.12:
+            if r < 0.1:
+                c = gen_shared_target(rng)
+                c["kind"] = "dag"
+            elif r < 0.2:
                 c = gen.gen_nested_gate_loop(rng)
                 c["kind"] = "loop"
             elif r < 0.75:
@@ -115,7 +141,7 @@ class C03(RunProp):
                 outs_of_ran = [o for n in program[-1]["nodes"] if n["name"] in ran_names for o in n.get("dataOuts", [])]
                 if len(outs_of_ran) != len(set(outs_of_ran)):
                     return None
-                if got != expect:
+                if impl.differ(got, expect):
                     return f"outputs differ from the selected branches' outputs: got {got!r}, expected {expect!r}"
         return None
 
